@@ -157,7 +157,7 @@ func runC20(c *an.Check) {
 			csv = append(csv, s)
 		}
 	}
-	if !c.AtLeast("C20", "confirmation report sites", len(conf), 6) || !c.AtLeast("C20", "CSV report sites", len(csv), 4) {
+	if !c.AtLeast("C20", "confirmation report sites", len(conf), 6) || !c.AtLeast("C20", "CSV report sites", len(csv), 3) {
 		return
 	}
 	c.AtLeast("C20.R1", "confirmation reports that may carry a nil error", len(success), 3)
